@@ -19,8 +19,8 @@
 (* cleared: generation `gen` of the resources) and/or `Rewrite` (the file  *)
 (* now holds AltDesc), then `Reload`, `Enable`.                            *)
 (* With SmallStep the stages are separate steps (stage invariants); without*)
-(* it `Load(md)` is the composition — one action per public call — and the *)
-(* dumped graph is the test table replayed on the real classes.            *)
+(* it `Load(md, b)` is the composition — one action per public call — and  *)
+(* the dumped graph is the test table replayed on the real classes.        *)
 (* Bystander.  `Load(md, TRUE)` (file modes) first loads a small fixed     *)
 (* world ByDesc from a SECOND handle of the same resource map and leaves   *)
 (* it disabled ("preloading"): `bw` is that world, with its own queue of   *)
